@@ -7,6 +7,19 @@ for l in open('/verif/properties.jsonl'):
     p = json.loads(l)
     if p['id'] == pid:
         break
+import glob, os
+used = []
+for d in sorted(glob.glob('/verif/seeded/%s*' % pid)):
+    try:
+        m = json.load(open(os.path.join(d, 'meta.json')))
+        used.append("  - " + " ".join(m.get('summary', '').split())[:260])
+    except Exception:
+        pass
+USED = ("\n\nIDEAS ALREADY USED by earlier rounds (do NOT repeat these or close variants; find different mechanisms, "
+        "different functions, different parameters - e.g. rarely used parameter values, state that survives between calls, "
+        "object identity/aliasing, interactions of two features, boundary sizes, error paths followed by further use):\n"
+        + "\n".join(used) + "\n") if used else ""
+TAG = sys.argv[4] if len(sys.argv) > 4 else ""
 print(f"""You are helping to test a verification framework by seeding realistic bugs into a Python library.
 
 The library is mundya/rig (a Python toolkit for SpiNNaker: SCP/SDP machine control client, place-and-route algorithms, routing-table minimisation, bit-field key allocation, torus geometry). You have your OWN scratch git worktree of it at {wt} . Work ONLY inside {wt} (never touch /repo or /verif, never read anything under /verif, never commit, never push). Python is /venv/bin/python (3.12). When you run python or pytest, cd into {wt} first so that `import rig` picks up your worktree (check `rig.__file__`).
@@ -27,12 +40,13 @@ YOUR TASK: produce {n} DIFFERENT, independent source changes (avoid the most obv
   (c) keeps the repository's existing pinned test suite green: run `/venv/bin/python /tmp/baseline_check.py {wt}` — it must print missing_from_stable=0 and exit 0 (it takes ~20 s). 
 Prefer changes that look like plausible programmer mistakes or plausible "optimisations/refactorings" (off-by-one, wrong comparison, dropped case, stale state, cursor advanced at the wrong time, shared mutable state, missing copy, swapped arguments, a condition that is right except in a corner), in the code that the property depends on. IMPORTANT: prefer changes that need something SPECIFIC to manifest — a particular fault sequence, a multi-step sequence of operations, an unusual input shape/corner case, or two cooperating sites that each look fine alone — NOT ones that every ordinary use would expose at once. Each of the {n} mutations should be in a different function/mechanism if possible. Each should be small (1-15 changed lines).
 
-For EACH mutation k = 1..{n}, create the directory {wt}/_seed/{pid}_k/ containing:
+For EACH mutation k = 1..{n}, create the directory {wt}/_seed/{pid}{TAG}_k/ containing:
   - patch.diff : output of `git diff -- rig` (relative to HEAD, applying cleanly with `git apply` at the worktree root) with ONLY that mutation applied;
-  - demo.py : a small standalone program (run as `cd <tree> && /venv/bin/python _seed/{pid}_k/demo.py` or with PYTHONPATH=<tree>) that exits 0 on the unmodified tree and exits non-zero (assertion failure) with the mutation applied, demonstrating the property violation using only the library's public behaviour. It may fake sockets etc. with unittest.mock if needed. It must be deterministic.
+  - demo.py : a small standalone program (run as `cd <tree> && /venv/bin/python _seed/{pid}{TAG}_k/demo.py` or with PYTHONPATH=<tree>) that exits 0 on the unmodified tree and exits non-zero (assertion failure) with the mutation applied, demonstrating the property violation using only the library's public behaviour. It may fake sockets etc. with unittest.mock if needed. It must be deterministic.
   - meta.json : {{"property": "{pid}", "summary": "...one sentence what was changed...", "needs": "...what specific input/sequence/fault is needed for it to manifest...", "files": [...]}}
-After saving a mutation's files, REVERT the source (`git -C {wt} checkout -- rig`) before starting the next, so each patch.diff is independent. Verify for each: (1) on clean tree demo.py exits 0; (2) after `git apply _seed/{pid}_k/patch.diff`, demo.py exits non-zero AND /tmp/baseline_check.py {wt} still exits 0; then revert. Leave the worktree clean (except the untracked _seed directory) when done.
+After saving a mutation's files, REVERT the source (`git -C {wt} checkout -- rig`) before starting the next, so each patch.diff is independent. Verify for each: (1) on clean tree demo.py exits 0; (2) after `git apply _seed/{pid}{TAG}_k/patch.diff`, demo.py exits non-zero AND /tmp/baseline_check.py {wt} still exits 0; then revert. Leave the worktree clean (except the untracked _seed directory) when done.
 
+{USED}
 Note: some parts of this old library fail on Python 3.12 for unrelated reasons (e.g. `collections.Iterable`, `random.sample` on a set); avoid relying on those code paths in demos, or work around them.
 
 Final answer: for each mutation, one short paragraph: what you changed, why it breaks the property, what is needed to manifest it, and confirmation of the three verifications above.""")
